@@ -3,6 +3,7 @@
 * This file is part of BitSerializer library, licensed under the MIT license.  *
 *******************************************************************************/
 #include "msgpack_readers.h"
+#include <cstring>
 #include "bitserializer/conversion_detail/memory_utils.h"
 
 /*
@@ -222,7 +223,10 @@ namespace
 	{
 		if (pos + sizeof(T) <= inputData.size())
 		{
-			outValue = Memory::BigEndianToNative(*reinterpret_cast<const T*>(inputData.data() + pos));
+			// The value can be located at any offset, so it is copied by bytes (direct access to unaligned data is undefined behaviour)
+			T networkValue;
+			std::memcpy(&networkValue, inputData.data() + pos, sizeof(T));
+			outValue = Memory::BigEndianToNative(networkValue);
 			pos += sizeof(T);
 		}
 		else {
@@ -827,7 +831,10 @@ namespace
 	{
 		if (const auto data = binaryStreamReader.ReadSolidBlock(sizeof(T)); !data.empty())
 		{
-			outValue = Memory::BigEndianToNative(*reinterpret_cast<const T*>(data.data()));
+			// The value can be located at any offset, so it is copied by bytes (direct access to unaligned data is undefined behaviour)
+			T networkValue;
+			std::memcpy(&networkValue, data.data(), sizeof(T));
+			outValue = Memory::BigEndianToNative(networkValue);
 		}
 		else {
 			throw ParsingException("Unexpected end of input archive", 0, binaryStreamReader.GetPosition());
